@@ -4,6 +4,7 @@ CONSTANTS
   Scenarios <- AllScenarios
   LateClose = FALSE
   LeakData = FALSE
+  GoFirst = FALSE
 INVARIANT TypeOK
 INVARIANT Inv_Usable
 INVARIANT Inv_NoLeftover
